@@ -178,3 +178,14 @@ for _k in (0, 1, 2, 3):
              bounded=f"blob of {_k} tokens (64-byte signatures)",
              note="each 128-byte chunk becomes one offered token (previous hash, content hash, signature), in order; the result says "
                   "whether all of them were accepted")
+
+# ---------------------------------------------------------------------------------------------------------------------
+# a signature verdict belongs to (object, KEY): having verified under one key never vouches for another key (history of two checks on
+# the same object) - otherwise a token that verified under its real signer's key could be offered to someone else's tree
+PK2 = OBJ("ipv8/keyvault/public/openssl.py::OpenSSLPK", ec=OBJ("contracts/common.py::RustPublicKeyModel", bin=BYTES))
+contract(f"{SO}::AbstractSignedObject.verify", "verify.verdict-is-per-key",
+         vars={"t": TOKEN(), "k1": PK, "k2": PK2},
+         requires=["uf_bool('valid_public_key', k1.ec.bin) and len(k1.ec.bin) > 0", "uf_bool('valid_public_key', k2.ec.bin) and len(k2.ec.bin) > 0"],
+         call="(t.verify(k1), t.verify(k2))", raises=[],
+         ensures=["implies(result[1], signed_by(t, k2.ec.bin))", "implies(result[0], signed_by(t, k1.ec.bin))"],
+         note="also holds for Metadata and Attestation objects, which share this method")
